@@ -49,7 +49,7 @@ def run_property(prop, tier, repo, evidence=True, only_rule=None, quiet=False, b
                     continue
                 rule_name = rule_name.split(':', 1)[1]
             if seen.get(rule_name, 0) < floor and not analysis_errors:
-                raise AnalysisError(
+                analysis_errors.append(
                     f'rule {rule_name} matched {seen.get(rule_name, 0)} instances, fewer than the floor '
                     f'{floor} confirmed by hand: the rule has gone (partly) blind')
 
